@@ -20,6 +20,8 @@ OBLIGATIONS = [
     (P + "fcgi_roundtrip", "FastCGI round trip: WF request, name-value block cut into PARAMS records anywhere, body cut into STDIN records anywhere, any padding 0..255, either length encoding, any segmentation -> exactly the peer's environment and body stream reach the request layer"),
     (P + "keepalive_sequence_fcgi", "FastCGI keep-alive: well-formed requests with FCGI_KEEP_CONN back to back (each framed freely, any segmentation) are each delivered exactly, in order"),
     (P + "frontends_agree_scgi_fcgi", "the same environment and body over SCGI and over FastCGI (any framing/segmentation) have the same fate"),
+    (P + "http_folded_header_roundtrip", "HTTP obs-fold (CRLF 1*(SP/HTAB)) over the generated parser: a header continued on lines starting with SP or HTAB is reported with the unfolded value (CRLFs dropped, the blank/tab kept), look-ahead byte pushed back"),
+    (P + "http_folded_lines_roundtrip", "header section with any number of SP/HTAB folds in any number of headers: each header reaches the per-header code with its unfolded value, in order; then process_request; body unread"),
     (P + "http_header_lines_roundtrip", "HTTP (generated parser): plain header lines reach the per-header code unchanged, one by one, in order; then process_request; body left unread (partial: no folded/quoted headers, no inverse of header canonicalisation / percent-decoding)"),
     (P + "scgi_roundtrip", "SCGI round trip: WF request encoded by the peer, any segmentation -> exactly the peer's environment (pairs, order) and body stream reach the request layer"),
 ]
@@ -41,6 +43,21 @@ def gen_cases(c, scale):
             budget = 3 if len(enc[api]) < 20000 else 1
             for segs in segmentations(rng, enc[api], budget):
                 cases.append(Case(api, "hc", segs, absreq=(r, q, ck), tag="wf"))
+    # fixed at every seed: obs-fold with HTAB / SP / mixed, in several headers, cut inside the fold; URIs whose first
+    # component has a configured script name (http.script_names = /s /a /f) as a proper string prefix
+    def fixed(method, script, path, uri, hdr_wire, hdr_meant):
+        r = AbsReq()
+        r.method, r.script, r.path, r.headers = method, script, path, hdr_meant
+        data = enc_http(method, uri, [(n, w, b": ") for n, w in hdr_wire], b"")
+        segsets = [[data]] + [[data[:k], data[k:]] for k in range(1, len(data))] + [[data[i:i + 1] for i in range(len(data))]]
+        for segs in segsets:
+            cases.append(Case("http", "hc", segs, absreq=(r, b"", b""), tag="wf-fixed"))
+    fixed(b"GET", b"/s", b"/fold", b"/s/fold", [(b"Accept", b"text/html,\r\n\tapplication/xml")], [(b"Accept", b"text/html,\tapplication/xml")])
+    fixed(b"GET", b"/a", b"/fold", b"/a/fold", [(b"Accept", b"a,\r\n b,\r\n\tc,\r\n \t d"), (b"X-Two", b"1\r\n\t2\r\n\t\t3"), (b"X-Plain", b"p")],
+          [(b"Accept", b"a, b,\tc, \t d"), (b"X-Two", b"1\t2\t\t3"), (b"X-Plain", b"p")])
+    for uri in (b"/sing/x", b"/s.html", b"/ax", b"/a-v2/index", b"/f%2Fx", b"/ss/s", b"/s_"):
+        dec = uri.replace(b"%2F", b"/")
+        fixed(b"GET", b"", dec, uri, [], [])
     # header sections up to the 16 KiB limits, arriving in several reads
     for i in range(10 * scale):
         r = gen_absreq(rng, bighdr=True)
